@@ -88,6 +88,29 @@ def fmt(row):
     return "| %s | %s | %s%s | %s |" % (row["name"], row.get("tests", "-"), ",".join(caught) or "NOT CAUGHT", (" (harness error: %s)" % ",".join(errs)) if errs else "", det.replace("|", "/"))
 
 
+def record_meta(patch_path, row):
+    """append the outcome to seeded/<id>/meta.json (if the patch lives there)"""
+    d = os.path.dirname(os.path.abspath(patch_path))
+    mf = os.path.join(d, "meta.json")
+    if not d.startswith(os.path.join(VERIF, "seeded")) or not os.path.exists(mf) or not row.get("applied"):
+        return
+    meta = json.load(open(mf, encoding="utf-8"))
+    checks = row.get("checks", {})
+    caught = [p for p, r in checks.items() if r["violations"] > 0]
+    entry = {
+        "when": time.strftime("%Y-%m-%d %H:%M"),
+        "verif_commit": sh(["git", "rev-parse", "--short", "HEAD"], cwd=VERIF)[1].strip(),
+        "existing_tests": row.get("tests", "-"),
+        "checks_run": sorted(checks.keys()),
+        "caught_by": ",".join(caught),
+        "first_detail": "; ".join("%s: %s" % (p, checks[p]["detail"][:200]) for p in caught[:3]),
+    }
+    meta.setdefault("check_runs", []).append(entry)
+    meta["what_i_ran"] = "tools/mutants.py: git -C /repo apply patch.diff; cargo test --workspace --offline; ./check <ID> --tier quick for the listed properties; git -C /repo checkout -- ."
+    meta["final_status"] = ("caught by " + ",".join(caught)) if caught else "NOT CAUGHT"
+    json.dump(meta, open(mf, "w", encoding="utf-8"), indent=1, ensure_ascii=False)
+
+
 def main():
     args = sys.argv[1:]
     rows = []
@@ -110,14 +133,18 @@ def main():
         props = args[2:] or ALL
         row = evaluate(os.path.basename(os.path.dirname(args[1])) + "/" + os.path.basename(args[1]), ["git", "apply", args[1]], props)
         print(fmt(row), flush=True)
+        record_meta(args[1], row)
         rows.append(row)
     elif args[0] == "seeded":
         base = os.path.join(VERIF, "seeded")
         for d in sorted(os.listdir(base)):
             pf = os.path.join(base, d, "patch.diff")
             if os.path.exists(pf):
+                if len(args) > 1 and not any(a in d for a in args[1:]):
+                    continue
                 row = evaluate(d, ["git", "apply", pf], ALL)
                 print(fmt(row), flush=True)
+                record_meta(pf, row)
                 rows.append(row)
     with open(os.path.join(VERIF, "seeded", "RESULTS.md"), "a") as f:
         f.write("\n## %s (%s)\n\n| mutant | existing tests | caught by | first detail |\n|---|---|---|---|\n" % (" ".join(args), time.strftime("%Y-%m-%d %H:%M")))
